@@ -21,6 +21,7 @@ import (
 	"fmt"
 	"math/big"
 	"strings"
+	"unicode"
 	"unicode/utf8"
 )
 
@@ -36,6 +37,10 @@ type Style struct {
 	Alt      bool   `json:"alt,omitempty"`      // ':' in object items, trailing commas, newline item separators
 	ItemNL   bool   `json:"itemnl,omitempty"`   // one object-constructor item per line (wherever a raw newline may be written); user-function attributes in another order
 	Seed     uint64 `json:"seed,omitempty"`
+	// Text: the text environment (textenv.go): line ends, byte order mark, end of the text, blanks at
+	// line ends, indentation characters, blank lines.  Independent of Seed: Style{Text: ...} is the
+	// minimal spelling in a non-default text environment.
+	Text TextEnv `json:"text"`
 }
 
 // Modes is a short description used in fingerprints / signatures.
@@ -52,6 +57,9 @@ func (s Style) Modes() string {
 	}
 	if s.Legacy || s.Esc || s.NumSpell || s.Alt || s.ItemNL {
 		m = append(m, "alt")
+	}
+	if !s.Text.IsDefault() {
+		m = append(m, "text")
 	}
 	if len(m) == 0 {
 		return "min"
@@ -70,6 +78,8 @@ type printer struct {
 	noNL        int // >0: inside a flush heredoc body
 	legacyEnd   bool
 	usedHeredoc bool
+	ts          uint64          // random stream of the text environment
+	facts       map[string]bool // what was actually written (evidence labels); shared with sub-printers
 }
 
 func (p *printer) rnd() uint64 {
@@ -170,17 +180,23 @@ func (p *printer) gap(want int) {
 	if p.st.NL && p.canNL() && p.chance(1, 6) {
 		switch p.pick(4) {
 		case 0:
-			s += "\n"
+			s += p.lineEnd(true) + p.afterNL(0)
 		case 1:
-			s += "\n    "
+			s += p.lineEnd(true) + p.afterNL(4)
 		case 2:
-			s += " # c\n"
+			s += " # " + p.cmtText("c") + p.lineEnd(true) + p.afterNL(0)
 		case 3:
-			s += " // c d\n  "
+			s += " // " + p.cmtText("c d") + p.lineEnd(true) + p.afterNL(2)
 		}
 	}
+	// the text environment puts line ends (and with them blank-only lines, blanks before the
+	// line end, indentation) wherever the grammar allows a newline, whatever the style
+	if p.st.Text.Blank > 0 && p.canNL() && p.tchance(uint64(p.st.Text.Blank), 12) {
+		s += p.lineEnd(true) + p.afterNL(0)
+		p.fact("text:newline-inserted")
+	}
 	if p.st.Cmt && p.quoted == 0 && p.chance(1, 10) {
-		s += "/* c */"
+		s += "/* " + p.cmtText("c") + " */"
 	}
 	if s != "" && needSep(p.last, s[0]) {
 		p.write(" ")
@@ -519,7 +535,7 @@ func (p *printer) obj(n *Node) {
 	newlineSep := (p.st.Alt || p.st.ItemNL) && p.quoted == 0 && p.noNL == 0
 	itemNL := newlineSep && p.st.ItemNL
 	if newlineSep && len(n.Items) > 0 && (itemNL || p.chance(1, 3)) {
-		p.write("\n")
+		p.write(p.lineEnd(true) + p.afterNL(0))
 	}
 	for i, it := range n.Items {
 		if i > 0 {
@@ -528,13 +544,13 @@ func (p *printer) obj(n *Node) {
 				if p.chance(1, 4) {
 					p.tok(",")
 				}
-				p.write("\n")
+				p.write(p.lineEnd(true) + p.afterNL(0))
 			} else if newlineSep && p.chance(1, 2) {
-				p.write("\n")
+				p.write(p.lineEnd(true) + p.afterNL(0))
 			} else {
 				p.tok(",")
 				if newlineSep && p.chance(1, 4) {
-					p.write("\n")
+					p.write(p.lineEnd(true) + p.afterNL(0))
 				}
 			}
 			if p.st.Space == 1 {
@@ -568,10 +584,10 @@ func (p *printer) obj(n *Node) {
 		p.expr(it.Val, 0, false)
 	}
 	if len(n.Items) > 0 && itemNL {
-		p.write("\n")
+		p.write(p.lineEnd(true) + p.afterNL(0))
 	} else if len(n.Items) > 0 && p.st.Alt && p.chance(1, 4) {
 		if newlineSep && p.chance(1, 2) {
-			p.write("\n")
+			p.write(p.lineEnd(true) + p.afterNL(0))
 		} else {
 			p.tok(",")
 		}
@@ -738,21 +754,8 @@ func endsWithNewlineLit(ps []*Part) bool {
 func (p *printer) template(n *Node, heredocOK bool) {
 	if heredocOK && p.st.Heredoc > 0 && p.tmpl == 0 && p.quoted == 0 && p.noNL == 0 && p.canNL() &&
 		endsWithNewlineLit(n.Parts) && p.chance(3, 4) {
-		var sb strings.Builder
-		litText(n.Parts, &sb)
-		all := sb.String()
-		if !strings.Contains(all, "\r") {
-			marker := ""
-			for _, m := range []string{"EOT", "END", "E_1", "MARK9"} {
-				if !strings.Contains(all, m) {
-					marker = m
-					break
-				}
-			}
-			if marker != "" {
-				p.heredoc(n, marker)
-				return
-			}
+		if p.heredoc(n) {
+			return
 		}
 	}
 	p.gap(0)
@@ -768,58 +771,224 @@ func (p *printer) template(n *Node, heredocOK bool) {
 	p.tight("\"")
 }
 
-func (p *printer) heredoc(n *Node, marker string) {
-	p.usedHeredoc = true
-	flush := p.st.Heredoc > 1 && !hasStrip(n.Parts) && p.chance(1, 2)
+// heredocMarkers: closing markers of several shapes (Ident = (ID_Start | '_') (ID_Continue | '-')*)
+var heredocMarkers = []string{"EOT", "END", "E_1", "MARK9", "_", "e", "EOT-2", "\u00e91", "T-", "A_Rather_Long_Heredoc_Marker_Name_0123456789", "eot", "\u65e5\u672c"}
+
+func markerShape(m string) string {
+	switch {
+	case len(m) == 1:
+		return "one-char"
+	case len(m) > 20:
+		return "long"
+	case strings.ContainsAny(m, "-"):
+		return "with-dash"
+	case m[0] >= 0x80:
+		return "non-ascii"
+	case strings.ContainsAny(m, "_0123456789"):
+		return "underscore-or-digit"
+	case strings.ToUpper(m) == m:
+		return "upper"
+	}
+	return "lower"
+}
+
+func firstRuneSpace(s string) bool {
+	r, _ := utf8.DecodeRuneInString(s)
+	return unicode.IsSpace(r)
+}
+
+// heredoc writes the template as <<MARKER or <<-MARKER.  The body lines are CONTENT, byte for
+// byte: a CR LF in a literal of the tree is written as CR LF (a CR that is not followed by LF is
+// spelled ${"\r"}, see lit), whatever the line ends of the text environment are; the introducer
+// line and the closing marker line belong to the text environment.  Flush form: every line
+// that is not blank gets the same NUMBER of white space runes in front of it - made of what the
+// text environment says, per line - and blank lines (white space only, up to and including the
+// line end, a CR before the LF included) are written verbatim, however long they are; it is
+// used only when some non-blank line of the tree's text has no indentation of its own, so that
+// the common prefix is exactly what was added.
+func (p *printer) heredoc(n *Node) bool {
+	flush := p.st.Heredoc > 1 && !hasStrip(n.Parts) && p.chance(2, 3)
 	// body is printed by a sub-printer so that it can be post-processed line by line
-	sub := &printer{st: p.st, rs: p.rnd() | 1, nlOK: []bool{false}}
+	sub := &printer{st: p.st, rs: p.rnd() | 1, ts: p.trnd() | 1, nlOK: []bool{false}, facts: p.facts}
 	sub.tmpl = 1
 	if flush {
 		sub.noNL = 1
 	}
 	sub.parts(n.Parts, false)
 	body := sub.sb.String()
-	indent := 0
-	if flush {
-		lines := strings.SplitAfter(body, "\n")
-		zero := false
+	lines := strings.SplitAfter(body, "\n")
+	if k := len(lines); k > 0 && lines[k-1] == "" {
+		lines = lines[:k-1]
+	}
+	// a closing marker that no line of the body equals after trimming
+	marker := ""
+	off := p.pick(len(heredocMarkers))
+	if p.st.Seed != 0 && p.chance(1, 2) {
+		off = p.pick(4) // the common ones half of the time
+	}
+	for i := range heredocMarkers {
+		m := heredocMarkers[(off+i)%len(heredocMarkers)]
+		ok := true
 		for _, ln := range lines {
-			if strings.TrimSpace(ln) == "" {
-				continue
-			}
-			if ln[0] != ' ' && ln[0] != '\t' {
-				zero = true
+			if strings.TrimSpace(ln) == m {
+				ok = false
+				break
 			}
 		}
-		if !zero {
-			flush = false
+		if ok {
+			marker = m
+			break
+		}
+	}
+	if marker == "" {
+		return false
+	}
+	p.usedHeredoc = true
+	// what the body holds (evidence labels)
+	var crlf, lf, empty, blankOnly, crlfBlank, interpLine, dirLine int
+	depths := map[int]bool{}
+	zero := false
+	var blankLens []int
+	for _, ln := range lines {
+		t := strings.TrimSuffix(ln, "\n")
+		isCRLF := strings.HasSuffix(t, "\r")
+		if isCRLF {
+			crlf++
+			t = strings.TrimSuffix(t, "\r")
 		} else {
-			indent = p.pick(5)
-			var nb strings.Builder
-			for _, ln := range lines {
-				if ln == "" {
-					continue
-				}
-				if strings.TrimSpace(ln) != "" {
-					nb.WriteString(strings.Repeat(" ", indent))
-				}
-				nb.WriteString(ln)
-			}
-			body = nb.String()
+			lf++
 		}
+		if strings.TrimSpace(ln) == "" {
+			if t == "" {
+				empty++
+			} else {
+				blankOnly++
+			}
+			blankLens = append(blankLens, utf8.RuneCountInString(t))
+			if isCRLF {
+				crlfBlank++
+			}
+			continue
+		}
+		rest := strings.TrimLeftFunc(t, unicode.IsSpace)
+		depths[utf8.RuneCountInString(t[:len(t)-len(rest)])] = true
+		if !firstRuneSpace(ln) {
+			zero = true
+		}
+		tr := strings.TrimSpace(t)
+		if strings.HasPrefix(tr, "${") && strings.HasSuffix(tr, "}") && strings.Count(tr, "${") == 1 {
+			interpLine++
+		}
+		if strings.HasPrefix(tr, "%{") && strings.HasSuffix(tr, "}") {
+			dirLine++
+		}
+	}
+	indent := 0
+	if flush && !zero {
+		flush = false
+	}
+	if flush {
+		indent = p.pick(9)
+		var nb strings.Builder
+		for _, ln := range lines {
+			if strings.TrimSpace(ln) != "" {
+				nb.WriteString(p.flushIndent(indent))
+			}
+			nb.WriteString(ln)
+		}
+		body = nb.String()
 	}
 	p.gap(0)
 	if needSep(p.last, '<') {
 		p.write(" ")
 	}
+	// nothing may stand between the marker and the line end of the introducer
 	if flush {
-		p.write("<<-" + marker + "\n")
+		p.write("<<-" + marker + p.eol())
 	} else {
-		p.write("<<" + marker + "\n")
+		p.write("<<" + marker + p.eol())
 	}
 	p.write(body)
-	p.write(strings.Repeat(" ", p.pick(4)) + marker + "\n")
+	ci := p.pick(4)
+	if p.st.Text.Indent > 0 {
+		ci = p.tpick(7)
+	}
+	closing := p.indentStr(ci) + marker
+	// the line end after the closing marker is an ordinary one (canNL holds here)
+	p.write(closing + p.lineEnd(true))
 	p.legacyEnd = false
+
+	form := "heredoc:plain"
+	if flush {
+		form = "heredoc:flush"
+		if indent > 0 {
+			p.fact("heredoc:flush-indented")
+		}
+	}
+	p.fact(form)
+	p.fact("heredoc:marker=" + markerShape(marker))
+	if ci > 0 {
+		p.fact("heredoc:closing-marker-indented")
+	}
+	content := "lf"
+	switch {
+	case crlf > 0 && lf > 0:
+		content = "mixed"
+	case crlf > 0:
+		content = "crlf"
+	}
+	p.fact("heredoc:content-eol=" + content)
+	if len(lines) >= 3 {
+		p.fact("heredoc:lines>=3")
+	}
+	if empty > 0 {
+		p.fact("heredoc:empty-line")
+	}
+	if blankOnly > 0 {
+		p.fact("heredoc:blank-only-line")
+	}
+	if len(depths) >= 2 {
+		p.fact("heredoc:indentation-depths>=2")
+	}
+	if interpLine > 0 {
+		p.fact("heredoc:line-of-one-interpolation")
+	}
+	if dirLine > 0 {
+		p.fact("heredoc:line-of-one-directive")
+	}
+	if flush && indent > 0 {
+		for _, k := range blankLens {
+			switch {
+			case k == 0:
+			case k < indent:
+				p.fact("heredoc:flush+blank-only-line-shorter-than-prefix")
+			case k > indent:
+				p.fact("heredoc:flush+blank-only-line-longer-than-prefix")
+			default:
+				p.fact("heredoc:flush+blank-only-line-as-long-as-prefix")
+			}
+		}
+	}
+	// conjunctions
+	textEOL := []string{"lf", "crlf", "mixed"}[p.st.Text.EOL%3]
+	p.fact("text:" + textEOL + "+" + form[len("heredoc:"):] + "-heredoc")
+	if flush && indent > 0 && empty+blankOnly > 0 {
+		p.fact("heredoc:flush-indented+blank-line")
+		if crlfBlank > 0 {
+			p.fact("heredoc:flush-indented+crlf-blank-line")
+		}
+		if content == "crlf" && p.st.Text.EOL == 1 {
+			// the whole text is a CR LF text
+			p.fact("text:crlf+flush-heredoc+blank-line")
+		}
+		if content == "lf" && p.st.Text.EOL == 0 {
+			p.fact("text:lf+flush-heredoc+blank-line")
+		}
+	}
+	if content == "crlf" && p.st.Text.EOL == 1 {
+		p.fact("text:crlf+heredoc-content-crlf")
+	}
+	return true
 }
 
 // Bare prints a template in standalone (ParseTemplate) form.
@@ -842,6 +1011,16 @@ func (p *printer) lit(s string, quoted bool) {
 			continue
 		}
 		if !quoted {
+			if r == '\r' && !(i+1 < len(rs) && rs[i+1] == '\n') {
+				// a CR that is not part of a CR LF cannot be written raw in a heredoc (refused) or
+				// in a standalone template (the scanner gives up there): spelled as an interpolation
+				sb.WriteString(`${"\r"}`)
+				p.fact("str:lone-cr-as-interpolation")
+				continue
+			}
+			if r == '\r' {
+				p.fact("str:raw-crlf-in-template-text")
+			}
 			sb.WriteRune(r)
 			continue
 		}
@@ -854,6 +1033,7 @@ func (p *printer) lit(s string, quoted bool) {
 			sb.WriteString(`\n`)
 		case '\r':
 			sb.WriteString(`\r`)
+			p.fact("str:cr-escape-in-quoted")
 		case '\t':
 			if p.chance(1, 2) {
 				sb.WriteString(`\t`)
@@ -982,51 +1162,103 @@ func (p *printer) exprStart(n *Node) {
 
 // PrintExpr spells the tree as a standalone expression (top level: newlines insignificant).
 func PrintExpr(n *Node, st Style) (src string, usedHeredoc bool) {
-	p := &printer{st: st, rs: st.Seed, nlOK: []bool{true}}
+	src, usedHeredoc, _ = PrintExprF(n, st)
+	return
+}
+
+// PrintExprF is PrintExpr and also reports what was actually written (evidence labels).
+func PrintExprF(n *Node, st Style) (src string, usedHeredoc bool, facts map[string]bool) {
+	p := &printer{st: st, rs: st.Seed, ts: st.Text.Seed, nlOK: []bool{true}, facts: map[string]bool{}}
 	p.expr(n, 0, false)
-	return p.sb.String(), p.usedHeredoc
+	return p.finish(p.sb.String(), false), p.usedHeredoc, p.facts
 }
 
 // PrintAttrExpr spells the tree as the right-hand side of a body attribute
 // (newlines end the attribute).
 func PrintAttrExpr(n *Node, st Style) string {
-	p := &printer{st: st, rs: st.Seed, nlOK: []bool{false}}
+	p := &printer{st: st, rs: st.Seed, ts: st.Text.Seed, nlOK: []bool{false}}
 	p.expr(n, 0, false)
 	return p.sb.String()
 }
 
 // PrintTemplate spells a template node in standalone template form.
 func PrintTemplate(n *Node, st Style) string {
-	p := &printer{st: st, rs: st.Seed, nlOK: []bool{false}}
-	p.bareTemplate(n)
-	return p.sb.String()
+	src, _ := PrintTemplateF(n, st)
+	return src
 }
 
-// PrintFuncs renders function definitions as ext/userfunc blocks.
+// PrintTemplateF is PrintTemplate and also reports what was actually written.
+func PrintTemplateF(n *Node, st Style) (string, map[string]bool) {
+	p := &printer{st: st, rs: st.Seed, ts: st.Text.Seed, nlOK: []bool{false}, facts: map[string]bool{}}
+	p.bareTemplate(n)
+	// every byte after the last sequence is content: only the start of the text is the environment's
+	return p.finish(p.sb.String(), true), p.facts
+}
+
+// PrintFuncs renders function definitions as ext/userfunc blocks.  The line structure of
+// the file belongs to the text environment: line ends, blanks before them, blank and
+// comment lines between attributes and blocks, indentation, byte order mark, the last line end.
 func PrintFuncs(fs []FuncDef, st Style) string {
+	if len(fs) == 0 {
+		return ""
+	}
+	tp := &printer{st: st, ts: st.Text.Seed ^ 0x5bd1e995}
 	var sb strings.Builder
+	ind := func() string {
+		if st.Text.Indent == 0 {
+			return "  "
+		}
+		return tp.indentStr(1 + tp.tpick(4))
+	}
+	nl := func() string {
+		s := tp.lineEnd(true)
+		if st.Text.Blank > 0 && tp.tchance(1, 6) {
+			s += ind() + "# " + tp.cmtText("note") + tp.eol()
+		}
+		return s
+	}
 	for i, f := range fs {
 		s := st
 		if s.Seed != 0 {
 			s.Seed += uint64(i+1) * 7919
 		}
+		if s.Text.Seed != 0 {
+			s.Text.Seed += uint64(i+1) * 104729
+		}
 		s.Heredoc = 0
-		sb.WriteString("function \"" + f.Name + "\" {\n")
+		sb.WriteString("function \"" + f.Name + "\" {" + nl())
 		if st.ItemNL {
 			// the order of the attributes of a body is insignificant: the result first,
 			// followed by further attributes on the next lines
-			sb.WriteString("  result = " + PrintAttrExpr(f.Body, s) + "\n")
+			sb.WriteString(ind() + "result = " + PrintAttrExpr(f.Body, s) + nl())
 		}
-		sb.WriteString("  params = [" + strings.Join(f.Params, ", ") + "]\n")
+		sb.WriteString(ind() + "params = [" + strings.Join(f.Params, ", ") + "]" + nl())
 		if f.VarParam != "" {
-			sb.WriteString("  variadic_param = " + f.VarParam + "\n")
+			sb.WriteString(ind() + "variadic_param = " + f.VarParam + nl())
 		}
 		if !st.ItemNL {
-			sb.WriteString("  result = " + PrintAttrExpr(f.Body, s) + "\n")
+			sb.WriteString(ind() + "result = " + PrintAttrExpr(f.Body, s) + nl())
 		}
-		sb.WriteString("}\n")
+		sb.WriteString("}")
+		if i < len(fs)-1 {
+			sb.WriteString(nl())
+		}
 	}
-	return sb.String()
+	// the end of the file: a line end by default
+	switch st.Text.Final {
+	case 1:
+	case 2:
+		sb.WriteString(tp.lineEnd(true) + tp.blanks(3, 4) + tp.eol() + tp.eol())
+	case 3:
+		sb.WriteString(tp.blanks(3, 4))
+	default:
+		sb.WriteString(tp.eol())
+	}
+	src := sb.String()
+	if st.Text.BOM {
+		src = utf8BOM + src
+	}
+	return src
 }
 
 var _ = utf8.RuneLen
